@@ -21,6 +21,7 @@ THEOREMS = [
     "quote_injective", "key_injective", "cachedPath_injective",
     "test_pkg_never_cached", "stale_is_miss", "damage_is_miss", "missing_is_miss", "load_sound", "store_then_load",
     "crash_atomic", "temp_ne_final", "failed_store_keeps_final", "load_provenance",
+    "load_depends_only_on_envelope", "load_hit_is_exact_seal", "damaged_never_fresh",
     # repaired defects: the old path.Join key scheme and path.Clean
     "clean_idempotent", "clean_rooted_no_dot_elements", "clean_id_of_good",
     "old_key_injective_counterexample", "old_key_injective_tags_counterexample", "old_key_injective_partial",
@@ -425,6 +426,8 @@ def run_string_ties(chk, tier):
 # ---------------------------------------------------------------------------------------------------------
 
 def fault_signature(cls, reg, outcome):
+    if cls == "stale":
+        return "C20 damaged-entry-accepted-as-fresh region=%s" % reg
     body = reg in ("body", "trailer")
     if cls == "flip" and body and outcome == "DIFF":
         return SIG_FLIP_DIFF
@@ -449,12 +452,12 @@ def run_faults(chk, tier):
         jobs = [("hex:" + bytes(chk.rng.randrange(256) for _ in range(200)).hex(), "01,10,80,ff", 300),
                 ("txt:%d:1500" % seed, "04,ff", 200),
                 ("sources", "10", 150)]
-        strides = {"sources": ["9", "7"]}     # quick tier samples the interior offsets of the large Sources entry
+        strides = {"sources": ["11", "9"]}     # quick tier samples the interior offsets of the large Sources entry
     summary = {}
     for (spec, masks, nrand) in jobs:
         xdg = C.scratch("gv-c20-f")
         try:
-            p = run_gvh(["faults", spec, masks, str(nrand), str(seed)] + strides.get(spec, []), extra_env={"XDG_CACHE_HOME": xdg}, timeout=3000)
+            p = run_gvh(["faults", spec, masks, str(nrand), str(seed)] + strides.get(spec, ["1", "1"]) + (["all"] if tier == "thorough" else []), extra_env={"XDG_CACHE_HOME": xdg}, timeout=3000)
         finally:
             shutil.rmtree(xdg, ignore_errors=True)
         if p.returncode != 0:
@@ -469,7 +472,13 @@ def run_faults(chk, tier):
             key = "fault:%s:%s:%s" % (cls, reg, outcome.split(":")[0])
             chk.add_case("damage", op + spec[:12], True, key)
             summary[pname + ":" + key] = summary.get(pname + ":" + key, 0) + 1
-            if outcome not in ("miss", "same"):
+            if cls == "stale":
+                # detail = <damage class>:<offset:mask | truncation point | ...>@<source time - build time>
+                if outcome != "miss":
+                    chk.add_mismatch("damage", "stale-load of damaged file: %s (payload spec %s, seed %d): source time is later than the "
+                                     "true build time" % (detail, spec[:80], seed), outcome, "miss",
+                                     signature=fault_signature(cls, reg, outcome))
+            elif outcome not in ("miss", "same"):
                 chk.add_mismatch("damage", op + " (payload spec %s, masks %s, seed %d)" % (spec[:80], masks, seed),
                                  outcome, "miss-or-identical", signature=fault_signature(cls, reg, outcome))
     chk.extra["damage_outcomes"] = dict(sorted(summary.items()))
@@ -708,7 +717,8 @@ def run(tier, seed):
                 "sha256 of the model key) and with the spec (hit iff same configuration and path, fresh, not under test); "
                 "path.Clean and %#v quoting vs the Lean models incl. an exhaustive sub-space. (b) every truncation point, every "
                 "single-byte flip x masks, random 2-8 byte corruption of real cache files (blob payloads and a Sources with every "
-                "AST node kind) -> outcome must be miss or identical content; SIGKILL at the N-th write/close/rename/openat/chmod "
+                "AST node kind) -> outcome must be miss or identical content, and every damaged file is also loaded with source times "
+                "build time +1ns/+1s/+1h/+1y -> must miss (a damaged entry is never accepted as fresh); SIGKILL at the N-th write/close/rename/openat/chmod "
                 "syscall of Store in a child process (strace), then a fresh process loads. (c) JS of a program over all packages "
                 "that compile here built without cache, with a cold cache, a warm cache (fresh process), truncated entries. A case "
                 "is non-trivial when its op line is distinct.")
@@ -718,7 +728,11 @@ def run(tier, seed):
                    "SHA-256 (abstract injective h, fixed output length), gzip+gob envelope (abstract seal/open), OS rename atomicity: "
                    "hypotheses of the theorems, exercised only by the fault enumeration (b)",
                    "strace syscall fault injection delivers SIGKILL at the stated syscall"]
-    chk.assumptions = ["strings are bytes; the quoting model covers ASCII and bytes that cannot start a valid UTF-8 sequence",
+    chk.assumptions = ["MODELLING ASSUMPTION (hypothesis `Authentic` of load_hit_is_exact_seal / damaged_never_fresh): the real envelope "
+                       "seals the build time TOGETHER with the payload under the gzip checksum, so bytes that still open are a complete "
+                       "sealed (time, payload); probed on every run: no single-bit flip, truncation or corruption of a stored file "
+                       "changes the (time, payload) a successful Load reports (content identical, stale source times still miss)",
+                       "strings are bytes; the quoting model covers ASCII and bytes that cannot start a valid UTF-8 sequence",
                        "no concurrent writers in the model (temp names make concurrent Stores independent; not proved)",
                        "nil and empty BuildTags are the same configuration for the spec (the code keys them apart: harmless miss)"]
     gvh_private()
